@@ -13,9 +13,13 @@
    11 (s)              -> (xml? xmlq? html html5 quote quote_html quote_html5)   all substitutions of one string
    12 (s)              -> (read_text unescape no_bare_ref)                       the readers on one string
    13 (s)              -> (xml? xmlq? html html5 quote R_xml? R_html R_html5 unescape(s) no_bare_ref(s) no_bare_ref_attr(s))
-                          where R_o = (quoted(o) read_text(o) unescape(o) read_quoted(quoted(o))?) : everything about one string *)
+                          where R_o = (quoted(o) read_text(o) unescape(o) read_quoted(quoted(o))? real(o) attr_checked(o)) : everything about one string;
+                          ... no_stray_hash(s)
+   14 (pass2 t K)      -> (out tok)       real_read_text: tok 0 = goes on (pass 1), 1 = goes on (pass 2), 2 = stopped
+   15 (q)              -> (0 v) | (1) | (2)  read_quoted_checked: value / not a quoted value / rejected (ValueError) *)
 From Coq Require Import List ZArith NArith Bool.
-From BS Require Import Base.Sexp Base.Types Base.Reader Model.SmartQuotes Model.EntitySubst Model.EntitySubstFast Spec.EntitiesSpec.
+From BS Require Import Base.Sexp Base.Types Base.Reader Model.SmartQuotes Model.EntitySubst Model.EntitySubstFast Spec.EntitiesSpec
+     Model.TextReaderReal Model.UnescapeLimit.
 Import ListNotations.
 Open Scope Z_scope.
 
@@ -42,9 +46,18 @@ Definition run_render_attribute_value (f : esub) (value : str) : option str :=
   | None => None
   end.
 
+Definition s_tok (t : tok_state) : sexp :=
+  match t with Goes false => A 0 | Goes true => A 1 | Stopped => A 2 end.
+Definition s_real (r : str * tok_state) : sexp := L [sstr (fst r); s_tok (snd r)].
+Definition s_attr (r : attr_read) : sexp :=
+  match r with AttrValue v => L [A 0; sstr v] | AttrNotQuoted => L [A 1] | AttrRejected => L [A 2] end.
+
+(* readings of one written text o: quoted form; idealised text reader; html.unescape; quoted reading;
+   the REAL text reader in a document "<pre>o</pre>" (first pass); the attribute reader with its failure *)
 Definition s_readings (o : str) : sexp :=
   let q := quoted_attribute_value o in
-  L [sstr q; sstr (read_text o); sstr (unescape o); s_ostr (read_quoted q)].
+  L [sstr q; sstr (read_text o); sstr (unescape o); s_ostr (read_quoted q);
+     s_real (real_read_text false o k_pre); s_attr (read_quoted_checked q)].
 
 Definition disp_c09 (sub : Z) (args : list sexp) : sexp :=
   match sub, args with
@@ -79,7 +92,9 @@ Definition disp_c09 (sub : Z) (args : list sexp) : sexp :=
       let h := run_html v in
       let h5 := run_html5 v in
       L [s_ostr x; s_ostr (substitute_xml v true); sstr h; sstr h5; sstr (quoted_attribute_value v);
-         sopt s_readings x; s_readings h; s_readings h5; sstr (unescape v); sbool (no_bare_ref v); sbool (no_bare_ref_attr v)]
+         sopt s_readings x; s_readings h; s_readings h5; sstr (unescape v); sbool (no_bare_ref v); sbool (no_bare_ref_attr v); sbool (no_stray_hash v)]
+  | 14, p :: t :: k :: _ => s_real (real_read_text (gbool p) (gstr t) (gstr k))
+  | 15, q :: _ => s_attr (read_quoted_checked (gstr q))
   | 12, s :: _ =>
       let v := gstr s in L [sstr (read_text v); sstr (unescape v); sbool (no_bare_ref v)]
   | _, _ => A (-1)
